@@ -53,6 +53,21 @@ async fn long(_: Request) -> Response {
 async fn big(_: Request) -> Response {
     Response::new(StatusCode::OK, vec![b'x'; BIG])
 }
+/// Pipelined connections: runs until the harness opens the gate (after `run` has returned).
+async fn gate(_: Request) -> Response {
+    let t0 = std::time::Instant::now();
+    while !gate_open() && t0.elapsed() < GATE_MAX {
+        tokio::time::sleep(Duration::from_millis(1)).await;
+    }
+    Response::new(StatusCode::OK, "gate")
+}
+async fn echo(r: Request) -> Response {
+    Response::new(StatusCode::OK, r.uri)
+}
+async fn echo_short(r: Request) -> Response {
+    tokio::time::sleep(Duration::from_millis(SHORT_MS)).await;
+    Response::new(StatusCode::OK, r.uri)
+}
 /// "WebSocket open": answer the upgrade and keep the connection until the peer closes it.
 async fn ws(_: Request, mut stream: Stream, _: Arc<()>) {
     let _ = stream
@@ -89,6 +104,9 @@ fn launch(scn: &Scn, addr: String, done: Sender<()>) -> Box<dyn FnOnce() + Send>
                     .with_stateless_route("/short", short)
                     .with_stateless_route("/long", long)
                     .with_stateless_route("/big", big)
+                    .with_stateless_route("/gate", gate)
+                    .with_stateless_route("/n/*", echo)
+                    .with_stateless_route("/ns/*", echo_short)
                     .with_websocket_route("/ws", ws);
                 let _ = app.run(addr).await;
                 mark_done();
